@@ -2,6 +2,7 @@
    (idl_store.rs:42-152, main.rs:118-128) over an abstract file system without symbolic
    links.  Paths are absolute, as lists of components.  Definitions only. *)
 Require Import Base.
+Require Import gen.IncludeFacts.
 Open Scope string_scope.
 Open Scope list_scope.
 
@@ -71,11 +72,14 @@ Definition resolve (w : world) (cur : path) (inc : string) : option path :=
     find (file_exists w) (map (fun d => d ++ [inc]) (search_dirs w)).
 
 (* the walk: every include of [cur] is resolved, the edge is added and the accumulated graph
-   is tested for a cycle; an already loaded file is walked again.  [branch] = files on the
-   current DFS path (cur excluded), [loaded] = store keys in load order (newest first). *)
-Inductive wres := WOk (loaded : list path) | WMissing | WCycle | WParse | WFuel.
+   is tested for a cycle.  [branch] = files on the current DFS path (cur excluded), [loaded] =
+   store keys in load order (newest first), [calls] = number of files walked so far.
+   [skip] is the regenerated fact walk_skips_walked: the repaired visit_include does not walk a
+   file again that has been walked before (the pinned upstream one walked it once per path). *)
+Inductive wres := WOk (loaded : list path) (calls : N) | WMissing | WCycle | WParse | WFuel.
 
-Fixpoint walk (fuel : nat) (w : world) (branch : list path) (cur : path) (loaded : list path) : wres :=
+Fixpoint walk_gen (skip : bool) (fuel : nat) (w : world) (branch : list path) (cur : path)
+    (loaded : list path) (calls : N) : wres :=
   match fuel with
   | O => WFuel
   | S f =>
@@ -84,22 +88,24 @@ Fixpoint walk (fuel : nat) (w : world) (branch : list path) (cur : path) (loaded
       | Some None => WParse
       | Some (Some incs) =>
           let loaded0 := if mem_path cur loaded then loaded else cur :: loaded in
-          (fix go (incs : list string) (loaded : list path) : wres :=
+          (fix go (incs : list string) (loaded : list path) (calls : N) : wres :=
              match incs with
-             | [] => WOk loaded
+             | [] => WOk loaded calls
              | i :: r =>
                  match resolve w cur i with
                  | None => WMissing
                  | Some t =>
                      if mem_path t (cur :: branch) then WCycle
-                     else match walk f w (cur :: branch) t loaded with
-                          | WOk l' => go r l'
+                     else if skip && mem_path t loaded then go r loaded calls
+                     else match walk_gen skip f w (cur :: branch) t loaded calls with
+                          | WOk l' c' => go r l' c'
                           | e => e
                           end
                  end
-             end) incs loaded0
+             end) incs loaded0 (calls + 1)%N
       end
   end.
 
-Definition walk_main (w : world) : wres :=
-  walk (S (List.length (w_files w))) w [] (w_main w) [].
+Definition walk_main_gen (skip : bool) (w : world) : wres :=
+  walk_gen skip (S (List.length (w_files w))) w [] (w_main w) [] 0%N.
+Definition walk_main (w : world) : wres := walk_main_gen walk_skips_walked w.
